@@ -61,6 +61,8 @@ def call_plan(name, fn, R, arrs, INT_FUNCS, BOOL_FUNCS):
         "to_zarr[region,path]": lambda: fn(arrs["a"], R["targets"] + ".r", region=(slice(0, 4), slice(0, 4)), compute=False),
         "store[region,path]": lambda: fn([arrs["a"]], [R["targets"] + ".r2"], regions=[(slice(0, 4), slice(0, 2))], compute=False),
         "store[list]": lambda: fn([arrs["a"], arrs["b"]], [R["targets"] + ".l1", R["targets"] + ".l2"], compute=False),
+        "from_array[large]": lambda: fn(np.arange(160000.0).reshape(400, 400), chunks=(200, 200), spec=R["spec"]),     # 1.28 MB in memory
+        "asarray[large]": lambda: fn(np.arange(160000.0).reshape(400, 400), chunks=(200, 200), spec=R["spec"]),
         "to_zarr[group-path]": lambda: fn(arrs["a"], R["targets"] + ".g", path="sub/group", compute=False),
         "to_zarr[region,group-path]": lambda: fn(arrs["a"], R["targets"] + ".rg", path="sub", region=(slice(0, 4), slice(0, 4)), compute=False),
         "map_blocks": lambda: fn(_ident, arrs["a"], dtype=np.float64),
@@ -147,6 +149,7 @@ def run(chk):
             names.append((label, n, obj))
     # extra call forms of the store entry points (same callables, other argument shapes)
     names += [("cubed", "to_zarr[region,path]", cubed.to_zarr), ("cubed", "store[region,path]", cubed.store), ("cubed", "store[list]", cubed.store),
+              ("cubed", "from_array[large]", cubed.from_array), ("cubed.array_api", "asarray[large]", xp.asarray),
               ("cubed", "to_zarr[group-path]", cubed.to_zarr), ("cubed", "to_zarr[region,group-path]", cubed.to_zarr)]
     for label, n, fn in names:
         with traced.Session() as s:
